@@ -144,16 +144,20 @@ PROPS.update({
         "modules": _DISPATCH_MODS + ["contracts.client_invoke"],
         "contracts": [_HR, "Pyro5.server.Daemon._handshake", "Pyro5.server.Daemon._sendExceptionResponse#body", "Pyro5.client.Proxy._pyroInvoke"],
         "groups": [{"modules": ["specs.socket_model", "specs.pystruct", "specs.seqdict", "specs.opaque", "contracts.callcontext"],
-                    "contracts": ["Pyro5.callcontext._CallContext.from_global", "Pyro5.callcontext._CallContext.to_global"]}],
+                    "contracts": ["Pyro5.callcontext._CallContext.from_global", "Pyro5.callcontext._CallContext.to_global"]},
+                   {"modules": ["specs.socket_model", "specs.pystruct", "specs.seqdict", "specs.opaque", "contracts.oneway_thread"],
+                    "contracts": ["Pyro5.server._OnewayCallThread.__init__", "Pyro5.server._OnewayCallThread.run", "Pyro5.server._OnewayCallThread._methodcall"]},
+                   {"modules": ["specs.socket_model", "specs.pystruct", "specs.seqdict", "specs.opaque", "specs.daemon_model", "contracts.blob_args"],
+                    "contracts": ["Pyro5.client.Proxy.__serializeBlobArgs#body", "Pyro5.server.Daemon.__deserializeBlobArgs#body"]}],
         "harness": ["replay/dispatch.py", "replay/c03.py"],
         "explanation": "at every point where handleRequest runs user code the thread-local context holds this request's connection, sequence number, flags, serializer "
                        "id, annotations and a correlation id set during this request; every message sent by handleRequest, _handshake and _sendExceptionResponse carries only "
                        "daemon annotations plus annotations written during this request (ghost provenance on the annotation dict objects); the response-annotation dict "
                        "left by an earlier request is replaced by a fresh object at the start of every request and handshake (identity, which also cuts the sharing with a "
-                       "oneway thread).  Second contract group: _CallContext.to_global (the snapshot handed to a oneway-call thread) is a NEW dict holding exactly the eight context fields with their current values (not the live attribute dictionary, so later requests on the dispatching thread do not reach it); _CallContext.from_global (what the oneway-call thread starts from) overwrites every one of the eight context fields with the snapshot's value - nothing the thread had before survives.",
+                       "oneway thread).  Oneway thread (third group, contracts/oneway_thread.py): _OnewayCallThread.__init__ takes the context snapshot exactly once, in the constructor (i.e. on the serving thread), and keeps method, arguments, daemon and client address as given; run() installs exactly that snapshot once BEFORE the method runs; _methodcall calls the method exactly once with the request's positional and keyword arguments and hands an Exception to the daemon's error handler.  Blob arguments (fourth group, contracts/blob_args.py): Proxy.__serializeBlobArgs writes exactly one entry (BLBI = marshalled (info, object id, method)) into the annotation dict it is GIVEN and adds the KEEPSERIALIZED flag - and _pyroInvoke (first group) never gives it the thread's own request annotations (fix e57670c); Daemon.__deserializeBlobArgs takes object id and method from that annotation and wraps THIS message.  Second contract group: _CallContext.to_global (the snapshot handed to a oneway-call thread) is a NEW dict holding exactly the eight context fields with their current values (not the live attribute dictionary, so later requests on the dispatching thread do not reach it); _CallContext.from_global (what the oneway-call thread starts from) overwrites every one of the eight context fields with the snapshot's value - nothing the thread had before survives.",
         "assumptions": _COMMON_ASSUME + ["threading.local gives each thread its own context object", "client side: after _pyroInvoke the thread's response annotations are this reply's annotations or a dict created during this call "
                                          "(never one left by an earlier call), also on failure",
-                                         "that the oneway thread is started with to_global()'s snapshot and calls from_global on it (three lines in Daemon.handleRequest / _OnewayCallThread.run) is part of the dispatch contract's frame / the bounded harness; the values in the snapshot are shared by reference (the response_annotations dict object itself is shared until either side rebinds it - see fix 0299028)"],
+                                         "that handleRequest creates the oneway thread while the request's context is installed (the constructor runs inside handleRequest, after the context assignments) is by inspection of the dispatch contract's event order; the values in the snapshot are shared by reference (the response_annotations dict object itself is shared until either side rebinds it - see fix 0299028)"],
     },
     "C07": {
         "modules": _DISPATCH_MODS,
@@ -182,9 +186,11 @@ PROPS.update({
         "modules": _DISPATCH_MODS,
         "contracts": [_HR],
         "groups": [{"modules": ["specs.socket_model", "specs.pystruct", "specs.seqdict", "specs.opaque", "contracts.batch_client"],
-                    "contracts": ["Pyro5.client.BatchProxy.__call__", "Pyro5.client.BatchProxy._pyroInvoke"]}],
+                    "contracts": ["Pyro5.client.BatchProxy.__call__", "Pyro5.client.BatchProxy._pyroInvoke"]},
+                   {"modules": ["specs.socket_model", "specs.pystruct", "specs.seqdict", "specs.opaque", "specs.daemon_model", "contracts.blob_args"],
+                    "contracts": ["Pyro5.client.Proxy._pyroInvokeBatch#body"]}],
         "harness": "replay/dispatch.py",
-        "explanation": "batch branch of handleRequest, loop invariant over the calls made so far: one result and one invocation per call (ghost counters), each call "
+        "explanation": "Proxy._pyroInvokeBatch (third group; what the client-side contracts use by declared interface): exactly one _pyroInvoke of '<batch>' with the call list it was given, no keyword arguments, flags BATCH (+ ONEWAY when asked).  Batch branch of handleRequest, loop invariant over the calls made so far: one result and one invocation per call (ghost counters), each call "
                        "goes through the same exposure gate and the same invocation as a single call; the loop stops at the first failing call whose wrapper is the last "
                        "result; a gate refusal ends the whole request before the refused call runs; a oneway batch sends nothing.  Client side (second contract group): BatchProxy.__call__ / _pyroInvoke send exactly one <batch> request carrying the queue object itself with the caller's oneway choice, hand back the generator over that request's results (nothing for oneway) and leave a new empty queue behind, so a re-used batch proxy never repeats calls.",
         "assumptions": _COMMON_ASSUME + ["the client side (BatchProxy collecting calls in order, replaying results, re-raising the wrapper) and `same effect as sequential calls` on a "
@@ -212,9 +218,11 @@ PROPS.update({
         "contracts": ["Pyro5.server.is_private_attribute", "Pyro5.server._get_attribute#body", "Pyro5.server._get_exposed_property_value#body",
                       "Pyro5.server._set_exposed_property_value#body", _HR],
         "groups": [{"modules": ["specs.socket_model", "specs.pystruct", "specs.seqdict", "specs.opaque", "specs.daemon_model", "contracts.exposure", "contracts.expose_decorator"],
-                    "contracts": ["Pyro5.server.expose#class"]}],
+                    "contracts": ["Pyro5.server.expose#class"]},
+                   {"modules": _DISPATCH_MODS + ["contracts.exposure", "contracts.exposed_members"],
+                    "contracts": ["Pyro5.server._get_exposed_members#compute"]}],
         "harness": "replay/dispatch.py",
-        "explanation": "is_private_attribute: every leading-underscore name not of dunder form and every reserved dunder name is private, nothing without a leading "
+        "explanation": "_get_exposed_members (third group; the advertised member list, computed on a cache miss by a loop over dir(cls) with an inductive invariant): `methods` holds exactly the listed non-private names whose class attribute is a function / method / method descriptor flagged exposed, `oneway` those of them flagged oneway, `attrs` exactly the non-private names whose class attribute is a data descriptor (and none of the former) whose first accessor is flagged exposed - the same predicates the serving gates test - and that result is what gets cached.  is_private_attribute: every leading-underscore name not of dunder form and every reserved dunder name is private, nothing without a leading "
                        "underscore is.  _get_attribute (object model of attribute lookup): a name is served only if it is not private, the class attribute is not a data "
                        "descriptor (so no property getter ever runs while resolving a method name), the instance has the attribute and it is flagged exposed; exactly that "
                        "attribute is returned; every refusal is an AttributeError and runs no code of the object.  _get/_set_exposed_property_value: the accessor that runs "
@@ -224,7 +232,7 @@ PROPS.update({
                        "oneway request none.  Second contract group: @expose applied to a class (loop invariant over the names of the class's own __dict__) marks only members the class itself defines (or their underlying function / accessors), never a private name, then the class object itself, and nothing else.",
         "assumptions": _COMMON_ASSUME + ["object model of CPython attribute lookup (contracts/exposure.py): uninterpreted class_attribute / instance_getattr / is_data_descriptor / "
                                          "_pyroExposed flag; no __getattr__ or metaclass overrides on registered classes; validated by the native harness on generated class shapes (bounded)",
-                                         "the metadata computation (_get_exposed_members, its per-class cache, 'advertise = serve') and @expose are covered by the bounded native harness only"],
+                                         "that what _get_exposed_members advertises (predicates over getattr(CLASS, name)) coincides with what the gates serve (predicates over getattr(INSTANCE, name)) rests on the object model (no instance attribute shadows a class member: listed findings), the per-class cache's staleness (resetMetadataCache) and the client's use of the metadata are covered by the bounded native harness only"],
     },
     "C03": {
         "modules": _DISPATCH_MODS + ["contracts.client_invoke"],
@@ -367,15 +375,17 @@ PROPS.update({
         "modules": ["specs.socket_model", "specs.pystruct", "specs.seqdict", "specs.opaque", "specs.daemon_model", "contracts.deserialize"],
         "contracts": ["Pyro5.serializers.SerializerBase.dict_to_class"],
         "lemmas": ["C04:decoding-closure"],
+        "groups": [{"modules": ["specs.socket_model", "specs.pystruct", "specs.seqdict", "specs.opaque", "specs.daemon_model", "contracts.exception_roundtrip"],
+                    "contracts": ["Pyro5.serializers.SerializerBase.make_exception#body"]}],
         "harness": "replay/c04.py",
-        "explanation": "SerializerBase.dict_to_class proved, for every tag string: the only callable that is not one of Pyro's fixed constructors is a converter "
+        "explanation": "Members of a class dict may already be revived objects (msgpack's object_hook runs bottom-up; a Proxy answers iteration, indexing, len() and attribute access by calling its remote object): the state handed to URI / Proxy / Daemon.__setstate__ and the three name collections of a proxy state are taken apart only after they were checked to be plain lists / tuples (sets), make_exception (second group, body) star-expands `args` and walks `attributes` only after the same check (fix f5b7b92).  SerializerBase.dict_to_class proved, for every tag string: the only callable that is not one of Pyro's fixed constructors is a converter "
                        "registered for exactly this tag; Pyro's own classes and make_exception are reached only for tags without a double underscore and without a "
                        "registered converter; names are resolved by getattr only in Pyro5.errors / builtins / sqlite3 with the namespace prefix matched exactly; "
                        "make_exception's precondition (only BaseException subclasses are instantiated) holds at every call site; the exception whitelist and the "
                        "converter registry are never written.  Lemma decoding-closure (syntactic, on the AST of the current tree): the decoding functions name no "
                        "importer, evaluator or opener and import nothing but sqlite3 and Pyro's own modules.  Reachable types of whole decoded payloads per "
                        "serializer, audit events and both decoding paths: bounded native harness only.",
-        "assumptions": ["the decoded payload is plain data (what serpent / json / marshal / msgpack decoders yield); getattr(module, name) and issubclass are uninterpreted, "
+        "assumptions": ["the decoded payload is a dict with string keys whose MEMBERS are arbitrary values (plain data, or - msgpack - objects already revived by this very function); getattr(module, name) and issubclass are uninterpreted, "
                         "issubclass upward closed along the known class lattice; all_exceptions holds only BaseException subclasses (import-time filter, not re-proved)",
                         "recreate_classes, the msgpack hooks, the serpent float case, __setstate__ of URI/Proxy/Daemon and make_exception's body are covered by the "
                         "syntactic lemma and the bounded harness only (audit hook over ~50k quick / ~500k thorough decodes)"],
